@@ -74,6 +74,44 @@ def clause_of(wd, tag):
         return None
 
 
+def validate_chunked(wd, tpath, chunk_events):
+    """The runs of a trace are independent: validate the file in chunks of whole runs (TLC holds the
+    deserialized trace in memory)."""
+    total, fails = 0, []
+    chunk, n, idx, last_run = [], 0, 0, None
+
+    def flush():
+        nonlocal chunk, n, idx, total, fails
+        if not chunk:
+            return
+        idx += 1
+        cp = tpath + ".chunk%d" % idx
+        with open(cp, "w") as f:
+            f.writelines(chunk)
+        t, fl = vlib.validate_trace(PID, "TransportTrace", "TransportTrace.cfg", cp, timeout=3000, tag="c%d_" % idx)
+        for i, x in enumerate(fl):
+            x["inv"] = clause_of(wd, "c%d_%d" % (idx, i + 1))
+        total += t
+        fails += fl
+        os.remove(cp)
+        chunk, n = [], 0
+
+    with open(tpath) as f:
+        for ln in f:
+            j = ln.find('"run":') + 6
+            k = j
+            while ln[k].isdigit():
+                k += 1
+            run = ln[j:k]
+            if run != last_run and n >= chunk_events:
+                flush()
+            last_run = run
+            chunk.append(ln)
+            n += 1
+    flush()
+    return total, fails
+
+
 def selftest(wd, good_lines):
     """Binding self-test: corruptions of an accepted trace must each be rejected."""
     recs = [json.loads(x) for x in good_lines]
@@ -199,7 +237,7 @@ def run(tier, seed):
         scripts += got
         r.pop("out")
         mcs.append((cfg, r))
-    cap = 40000 if thorough else 4000
+    cap = 25000 if thorough else 4000
     if len(scripts) > cap:
         scripts = rng.sample(scripts, cap)
     nvar = 3 if thorough else 2
@@ -213,8 +251,8 @@ def run(tier, seed):
             f.write(json.dumps(s) + "\n")
 
     # ---- 2. run the real code
-    nrand = 40000 if thorough else 4000
-    rots = ["--rot", "24:3300", "--rot", "8:6200"] if thorough else ["--rot", "8:640"]
+    nrand = 25000 if thorough else 4000
+    rots = ["--rot", "24:3300", "--rot", "8:6200"] if thorough else ["--rot", "6:640", "--rot", "4:1100"]
     tpath = os.path.join(wd, "trace.ndjson")
     rpath = os.path.join(wd, "random-scripts.ndjson")
     p = vlib.run_bin(bins["transport"], ["--scripts", spath, "--random", nrand] + rots +
@@ -229,11 +267,10 @@ def run(tier, seed):
         raise vlib.ToolError("too few tamper / back-pressure operations took effect")
 
     # ---- 3. trace validation (the oracle)
-    total, fails = vlib.validate_trace(PID, "TransportTrace", "TransportTrace.cfg", tpath, timeout=3000)
+    total, fails = validate_chunked(wd, tpath, 900000)
     nviol = 0
     rand_scripts = None
-    for i, fl in enumerate(fails):
-        fl["inv"] = clause_of(wd, "t%d" % (i + 1))
+    for fl in fails:
         runid = fl["run"]
         if runid - 1 < len(conv):
             script = conv[runid - 1]
